@@ -18,7 +18,9 @@ from ..facts import instance_fields
 from ..fold import Folder, Unfoldable
 from ..model import AnalysisError, ClassInfo, unparse, walk_no_nested
 from ..tables import STRING_KIND_DTYPES
+from ..logic import known
 from .c06 import run_atom, handler_rule
+from .rules_types import value_type, validated_before
 
 DECIDED = [
     "OWN-3 _values and _dtype are written only by the enumerated BaseProperty methods",
@@ -34,6 +36,11 @@ NOT_DECIDED = ["acceptance set of each converter", "normal forms / idempotence o
 VALUE_WRITERS = ("__init__", "values.setter", "__setitem__", "remove", "extend", "append", "insert")
 DTYPE_WRITERS = ("__init__", "dtype.setter", "values.setter")
 
+RETURN_TYPES = {
+    "int_get": ("default:int", "int"), "float_get": ("default:float", "float"), "str_get": ("default:string", "str"),
+    "boolean_get": ("default:boolean", "bool"), "date_get": ("default:date", "date"), "time_get": ("default:time", "time"),
+    "datetime_get": ("default:datetime", "datetime"),
+}
 RETURN_FORMS = {
     "int_get": ("default_values('int')", "int(string)", "int(float(string))"),
     "float_get": ("default_values('float')", "float(string)"),
@@ -47,6 +54,11 @@ RETURN_FORMS = {
                      "dt.datetime.strptime(string, FORMAT_DATETIME)"),
 }
 DEFAULT_TYPES = {"string": str, "text": str, "int": int, "float": float, "url": str, "boolean": bool}
+
+
+def _is_valid_type_call(leaf, var):
+    return isinstance(leaf, ast.Call) and call_name(leaf).split(".")[-1] == "valid_type" and len(leaf.args) == 1 \
+        and isinstance(leaf.args[0], ast.Name) and leaf.args[0].id == var
 
 
 def short_name(f):
@@ -153,9 +165,9 @@ def run(prog, rep):
             elif isinstance(v, ast.Call) and call_name(v) == "dtypes.infer_dtype":
                 ok, why = True, "infer_dtype"
             elif isinstance(v, ast.Name):
-                conds = [(unparse(t), pol) for t, pol, _ in g.dominating_conditions(node)]
-                if ("dtypes.valid_type(%s)" % v.id, "true") in conds or ("not dtypes.valid_type(%s)" % v.id, "false") in conds:
-                    ok, why = True, "passed valid_type"
+                good, _ = validated_before(g, node, v.id, _is_valid_type_call)
+                if good:
+                    ok, why = True, "passed valid_type on every path"
                 else:
                     from ..astutil import local_assignments
                     defs = local_assignments(f.node, v.id)
@@ -169,15 +181,17 @@ def run(prog, rep):
     if inf is None or vt is None:
         raise AnalysisError("dtypes.infer_dtype / valid_type vanished")
     rep.saw_function(inf)
+    dtc = dmod.classes.get("DType")
+    dtype_values = set(v.value for v in dtc.attrs.values() if isinstance(v, ast.Constant) and isinstance(v.value, str)) if dtc else set()
     g = build_cfg(inf)
     for node in g.nodes:
         if node.kind == "return" and node.ast.value is not None:
             v = node.ast.value
             if isinstance(v, ast.Constant):
-                ok = v.value in ("string", "text")
+                ok = v.value in dtype_values
             else:
-                conds = [(unparse(t), pol) for t, pol, _ in g.dominating_conditions(node)]
-                ok = isinstance(v, ast.Name) and ("valid_type(%s)" % v.id, "true") in conds
+                ok = isinstance(v, ast.Name) and validated_before(
+                    g, node, v.id, _is_valid_type_call, lambda dv: isinstance(dv, ast.Constant) and dv.value in dtype_values)[0]
             rep.check(ok, "PROV-4", "infer_dtype returns %s" % unparse(v), "a valid type", "infer_dtype may return `%s`, which is not "
                       "known to be a valid odML type" % unparse(v), where(inf, node.ast))
 
@@ -217,19 +231,25 @@ def run(prog, rep):
                       "boolean_get -> True/False, date_get -> strptime(.., FORMAT_DATE).date(), time_get -> strptime(.., FORMAT_TIME)"
                       ".time(), datetime_get -> strptime(.., FORMAT_DATETIME); defaults via default_values(<literal>); "
                       "tuple_get -> list of stripped strings of the required length; no converter returns its argument unchanged")
-    for name, forms in sorted(RETURN_FORMS.items()):
+    fd0 = Folder(prog)
+
+    def fold_const(e):
+        return fd0.try_fold(e, dmod, default=None)
+    for name, allowed in sorted(RETURN_TYPES.items()):
         f = dmod.functions.get(name)
         if f is None:
             raise AnalysisError("dtypes.%s vanished" % name)
         rep.saw_function(f)
-        p0 = f.params[0]
-        rets = [n.value for n in walk_no_nested(f.node) if isinstance(n, ast.Return)]
+        g = build_cfg(f)
+        rets = [n for n in g.nodes if n.kind == "return"]
         rep.floor("RET-1", len(rets), 2, "returns in %s" % name)
-        for r in rets:
-            t = unparse(r).replace(p0, "string") if p0 != "string" else unparse(r)
-            rep.check(t in forms, "RET-1", "%s returns %s" % (name, t[:60]), "typed result",
-                      "%s returns `%s`, which is not one of the typed forms %s (e.g. a pass-through keeps foreign types / sub-second parts)"
-                      % (name, t[:80], list(forms)), where(f, r), witness="a datetime with microseconds / a str for dtype int is stored as is")
+        for rn in rets:
+            r = rn.ast.value
+            ts = value_type(r, g, rn, f.params, fold_const) if r is not None else set(["None"])
+            rep.check(ts <= set(allowed), "RET-1", "%s returns %s" % (name, "/".join(sorted(ts))), "typed result",
+                      "%s returns `%s` of shape %s, not one of %s (e.g. a pass-through keeps foreign types / sub-second parts)"
+                      % (name, unparse(r)[:70] if r is not None else "None", sorted(ts), list(allowed)), where(f, rn.ast),
+                      witness="a datetime with microseconds / a str for dtype int is stored as is")
     fd = Folder(prog)
     for nm, want in (("FORMAT_DATE", "%Y-%m-%d"), ("FORMAT_DATETIME", "%Y-%m-%d %H:%M:%S"), ("FORMAT_TIME", "%H:%M:%S")):
         try:
@@ -253,16 +273,31 @@ def run(prog, rep):
                   "the default %s is not built as %s" % (kind, form), dv.where, witness="an empty %s value carries microseconds" % kind)
     tg = dmod.functions.get("tuple_get")
     rep.saw_function(tg)
-    rets = [unparse(n.value) for n in walk_no_nested(tg.node) if isinstance(n, ast.Return)]
-    rep.check(set(rets) <= {"None", "res"} and "res" in rets, "RET-1", "tuple_get returns the parsed list or None", str(rets),
-              "tuple_get returns %s" % rets, tg.where)
-    lc = [n for n in walk_no_nested(tg.node) if isinstance(n, ast.Assign) and unparse(n.targets[0]) == "res"]
-    rep.check(len(lc) == 1 and isinstance(lc[0].value, ast.ListComp) and unparse(lc[0].value.elt).endswith(".strip()"), "RET-1",
-              "tuple_get builds a list of stripped strings", "ok", "tuple_get no longer builds a list of stripped strings", tg.where)
-    cnt = [n for n in walk_no_nested(tg.node) if isinstance(n, ast.If) and "len(res) == count" in unparse(n.test)
-           and any(isinstance(m, ast.Raise) for m in ast.walk(n))]
-    rep.check(bool(cnt), "RET-1", "tuple_get enforces the tuple length", "ok", "tuple_get no longer rejects tuples of the wrong length", tg.where,
-              witness="a 3-tuple value is accepted for dtype 2-tuple")
+    g = build_cfg(tg)
+    rets = [n for n in g.nodes if n.kind == "return"]
+    cnt_param = tg.params[1] if len(tg.params) > 1 else "count"
+    shapes = set()
+    for rn in rets:
+        ts = value_type(rn.ast.value, g, rn, tg.params, fold_const) if rn.ast.value is not None else set(["None"])
+        shapes |= ts
+        if "strlist" in ts and isinstance(rn.ast.value, ast.Name):
+            lv = rn.ast.value.id
+
+            def classify(leaf, lv=lv, cnt_param=cnt_param):
+                if isinstance(leaf, ast.Compare) and len(leaf.ops) == 1 and isinstance(leaf.ops[0], ast.Is) \
+                        and unparse(leaf.left) == cnt_param and unparse(leaf.comparators[0]) == "None":
+                    return "N"
+                if isinstance(leaf, ast.Compare) and len(leaf.ops) == 1 and isinstance(leaf.ops[0], ast.Eq):
+                    sides = set([unparse(leaf.left), unparse(leaf.comparators[0])])
+                    if sides == set(["len(%s)" % lv, cnt_param]):
+                        return "E"
+                return None
+            good = known(g, rn, classify, lambda a: a["N"] or a["E"], ["N", "E"])
+            rep.check(good, "RET-1", "tuple_get enforces the tuple length", "every path to the return knows count is None or len == count",
+                      "tuple_get can return a list whose length differs from the required count", where(tg, rn.ast),
+                      witness="a 3-tuple value is accepted for dtype 2-tuple")
+    rep.check(shapes <= set(["None", "strlist"]) and "strlist" in shapes, "RET-1", "tuple_get returns a list of stripped strings or None", str(sorted(shapes)),
+              "tuple_get returns %s" % sorted(shapes), tg.where)
     # aliases
     for alias, target in (("bool_get", "boolean_get"), ("bool_set", "boolean_get"), ("string_get", "str_get"), ("str_set", "str_get"),
                           ("time_set", "time_get"), ("date_set", "date_get"), ("datetime_set", "datetime_get"), ("boolean_set", "boolean_get")):
@@ -304,8 +339,13 @@ def run(prog, rep):
     rep.floor("HANDLER-1", n, 1, "rollback handlers")
     # _validate_values catches everything (basis of the VALIDATED discharge)
     vv = cls.lookup_method("_validate_values")
-    txt = unparse(vv.node)
-    rep.check("dtypes.get(val, self.dtype)" in txt and "except Exception" in txt and "return False" in txt, "ATOM",
+    from ..contracts import _validate_values_shape
+
+    class _A(object):
+        pass
+    holder = _A()
+    holder.an = an
+    rep.check(_validate_values_shape(holder), "ATOM",
               "_validate_values converts inside try/except Exception", "ok",
               "_validate_values no longer converts every value with dtypes.get(val, self.dtype) under `except Exception: return False`", vv.where,
               witness="an unconvertible value raises something else than ValueError, or passes validation")
